@@ -50,6 +50,7 @@ func main() {
 		ovl      = flag.String("overlay", "", "internal: <repo file>=<replacement file> (used by -benignfuzz)")
 	)
 	flag.Parse()
+	verifDirGlobal = *verif
 	start := time.Now()
 	seed := 0
 	if s := os.Getenv("VERIF_SEED"); s != "" {
